@@ -1,16 +1,29 @@
 chk('C06', 'exploration',
-    'bounded-exhaustive exploration of MZM / PM / LASER on the real code against closed-form per-sample reference models: '
-    'MZM over a deviation lattice (k<=2 quick, k<=3 thorough) of (17 drive levels | 6 waveforms incl. a 102-sample record holding every '
-    '(field value, drive level) pair, 4 biases, 3 Vpi, 4 losses, 5 ER, 2 pol) with the FULL product 4 layouts x 6 noise kinds '
-    '(incl. zero-sum and all-zero noise) x 7 drive containers at every lattice point, checking transfer identity on signal and noise, '
-    'passivity, on/off ratio, 2Vpi periodicity, polarisation extinction, container equivalence and wrong-length ValueError; PM as a full '
-    'product plus ALL ordered PM operation sequences of depth 2 (23-element drive alphabet) and depth 3 (8 quick / 23 thorough) for '
-    'additivity; LASER under the scripted numpy RNG over every phase-noise answer vector {0, ramp, +-pi alternating, seeded, large} x '
-    'df on FFT bins {0, +-1, +-3, +-fs/8, +-fs/2} x powers x linewidths x grids, and |df| > fs/2 raising',
-    'continuum quantifiers (all complex fields, all real drives/bias/Vpi/loss/ER, all laser powers/linewidths) are covered at the stated '
-    'alphabet points only; the MZM lattice is a deviation bound (k axes away from the baseline), not the full parameter product; the '
-    'MZM band-pass stage (BW) is left None; numpy scalar integer drives and list drives of PM are outside the documented drive types and '
-    'not exercised; that numpy.random.normal is Gaussian is trusted (the scripted RNG enumerates its answers instead)',
-    'deviation-lattice + full-product enumeration and exhaustive PM operation sequences on the real devices, scripted-RNG enumeration of '
-    'LASER phase-noise answers, differential oracle against closed-form transfer functions with rounding-bound tolerances',
+    'real MZM / PM / LASER against closed-form per-sample reference models, 372 930 cases quick / 2.27 M thorough. '
+    'MZM: deviation lattice k<=2 quick (890 points) / k<=3 thorough (5 562) over (20 level + 14 waveform drive records, '
+    'field lengths 1..1025, one record with every (field value, drive level) pair, one of 100..1000 Vpi; 4 biases, 4 Vpi, '
+    '6 losses, 7 ER incl. 0 / 60 dB and one ulp inside, 2 pol) with the FULL product 4 layouts x 6 noise kinds (+ x-only / y-only for 2-pol) '
+    'x 10 drive containers at every point; the lattice with k-1 for 15 further field layouts (real / int / uint8 / bool / '
+    'f16 / f32 / c64 fields, empty y, x1e-9, x1e6, DC offset, read-only, LASER output), 14 further drive containers '
+    '(numpy scalars, 0-d, small-int / bool / c128 arrays, tuple, noisy electrical_signal), 7 scalar types of bias / Vpi / '
+    'loss / ER, 2 other grids; 18 pol values; integer drives at dtype limits. Oracles: transfer identity on signal and noise, passivity, '
+    'on/off ratio, 2Vpi periodicity, pol extinction, container equivalence, 7 wrong drive lengths per N -> ValueError, '
+    'bitwise-equal repeat call after a grid change. PM: full product 4 Vpi x 19 layouts x noise x (3 scalar containers '
+    'x 20 + 7 waveform containers x 14 records); 13 further containers x 8 Vpi types x 3 grids; ALL ordered PM sequences of depth 2 '
+    '(23-element alphabet) and 3 (8 quick / 23 thorough); ALL ordered mixed MZM/PM chains of depth 2 / 3 over 6 calls. LASER under the '
+    'scripted numpy RNG: full product 5 time-vector kinds x 2 grids x N {16,64} (+1,2) x 2 offsets x 4 powers x 5 linewidths x 5 phase-noise '
+    'answers {0, ramp, +-pi alternating, seeded, large} x df on bins {None,0,+-1,+-3,+-N/8,+-N/2}; lattice k<=3 / 4 adding 4 grids, '
+    'prime N, far offset, scalar types of p / lw / df, extreme powers, RIN; |df| > fs/2 (incl. the doubles next to fs/2) raises on 6 grids; '
+    'all 36 ordered grid pairs reconfigured between calls; kernel call-history part (7 calls x 3 grids vs a fresh interpreter)',
+    'continuum quantifiers (fields, drives, bias/Vpi/loss/ER, laser powers/linewidths) are covered at the stated alphabet points only; the '
+    'MZM lattice is a deviation bound, not the full parameter product; seeded members depend on VERIF_SEED; BW of MZM stays None. Not '
+    'exercised: float16 drive arrays for MZM, list / tuple drives of PM, string forms of electrical_signal, unsigned and 8/16-bit numpy '
+    'scalars as parameters, integer-minimum df, ER / loss outside their documented range. Where the statement is silent two behaviours are '
+    'accepted and nothing else: length-1 drive array against N > 1 (ValueError or constant drive), noise of an electrical_signal drive '
+    '(ignored or added), numpy-integer / float32 / 0-d scalar PM drives (documented TypeError or applied), pol other than x / y (rejected '
+    'or one of the two results). With RIN only the rotation clause is checked, not the level. Gaussianity of numpy.random.normal is '
+    'trusted (the scripted RNG enumerates its answers instead)',
+    'deviation-lattice + full-product enumeration and exhaustive PM / mixed operation sequences on the real devices, scripted-RNG enumeration of '
+    'LASER phase-noise answers (the RIN samples are one fixed scripted vector), differential oracle against closed-form transfer functions '
+    'with rounding-bound tolerances',
     'DESIGN.md 5/C06')
